@@ -815,6 +815,9 @@ func main() {
 		}
 		for _, c := range cases {
 			o := rg.run(c)
+			if o.Err != "" { // e.g. a deadline on an overloaded machine: one more try
+				o = rg.run(c)
+			}
 			if o.Err != "" {
 				m.E2EErrors = append(m.E2EErrors, fmt.Sprintf("%s %q: %s", c.Route, c.ClientVia, o.Err))
 			}
